@@ -2,10 +2,14 @@
   Props/C16.lean — property C16: the attribution tracker is total, bounded and conservative.
 
   Only property theorems, their non-vacuity examples and the axiom audit live here.
-  Model: Model/Tracker.lean (mirror of attribution_tracker.rs after the two `fix:` commits
+  Model: Model/Tracker.lean (mirror of attribution_tracker.rs after the `fix:` commits
   recorded in known_findings.json).  The diff and the move detector are parameters: every
   theorem quantifies over ALL segment lists / substantive ranges / move mappings, subject only
   to the stated hypotheses, which the harness checks on every real diff.
+  `update` is the diff path of `update_attributions` (contents differ); `updateAttributions` is the
+  whole function: byte-identical contents return the priors in place (§4; `no_panic_all`,
+  `in_bounds_all`, `on_boundaries_all` cover both paths; §2b speaks of the diff path, on the identical
+  path every byte is unchanged text and `identity_keeps_cover` is its statement).
 -/
 import GitAiModel.Lemmas.Tracker
 import GitAiModel.Lemmas.TrackerRoundtrip
@@ -13,6 +17,7 @@ import GitAiModel.Lemmas.TrackerIdentity
 import GitAiModel.Lemmas.TrackerMerge
 import GitAiModel.Lemmas.TrackerBoundaries
 import GitAiModel.Lemmas.TrackerWs
+import GitAiModel.Lemmas.TrackerInPlace
 namespace GitAi.Tracker
 open GitAi
 
@@ -276,78 +281,159 @@ theorem witness_roundtrip_overlap :
     toLineAttrs (lineAttrsToAttrs [⟨1, 2, ['x'], none⟩, ⟨2, 2, ['y'], none⟩] [97, 10, 98, 10] 5) [97, 10, 98, 10]
       = .ok [⟨1, 2, ['x'], none⟩] := by decide
 
-/-! ## 4. Identical text -/
+/-! ## 4. Identical text
 
-/-- **C16 identity (exact form).** On an identical text (the diff is one Equal segment) and
-    priors that are non-empty ranges inside the text — overlapping, unsorted, duplicated, off
-    boundaries, any authors and timestamps — `update_attributions` returns exactly the
-    sorted, de-duplicated, coalesced priors: nothing is moved, dropped or re-attributed, and no
-    move mapping or substantive range can interfere. -/
-theorem identity_update (c : Text) (subst : List (Nat × Nat)) (moves : List Move) (P : List Attr)
-    (author : Str) (ts : Nat) (hP : Tame c.length P) :
-    update [⟨.equal, c⟩] subst moves P author ts = .ok (merge (normalizeOld P)) :=
-  update_identity c subst moves P author ts hP
+  After the /repo fix "an unchanged content keeps its attributions in place" `update_attributions`
+  does not diff two byte-identical contents: the priors are returned in position order (ties keep
+  the order they came in — the order the line projection goes by), cut to the content; deletion
+  markers stay, nothing is re-sorted by author, nothing is merged
+  (`updateAttributions` / `keepInPlace`, Model/Tracker.lean). -/
 
-/-- **C16 identity_keeps_lines (partial).** If moreover the priors are already in the normal
-    form every `update_attributions` result has (`merge (normalizeOld P) = P`), the identity
-    update returns them unchanged, hence every line attribution is kept.
-    FULL STATEMENT (not proved; checked by the oracle `identity_keeps_lines` on the real code):
-    for all in-range priors with `start ≤ end`,
-    `toLineAttrs (update [Equal c] … P) c = toLineAttrs P c`.  It is false in two regions,
-    witnessed below and replayed on the real code (known findings): zero-length priors
-    (deletion markers are dropped by the Equal branch) and two authors sharing a timestamp on
-    one line (update re-sorts by author, the first-on-tie winner flips); a third region keeps
-    the authors but changes the `overrode` field (read from the last candidate in list order). -/
-theorem identity_keeps_lines_partial (c : Text) (subst : List (Nat × Nat)) (moves : List Move)
-    (P : List Attr) (author : Str) (ts : Nat) (hP : Tame c.length P)
-    (hnorm : merge (normalizeOld P) = P) :
-    update [⟨.equal, c⟩] subst moves P author ts = .ok P ∧
-    (∀ out, update [⟨.equal, c⟩] subst moves P author ts = .ok out →
-      toLineAttrs out c = toLineAttrs P c) := by
-  have h := update_identity c subst moves P author ts hP
-  rw [hnorm] at h
-  refine ⟨h, ?_⟩
+/-- **C16 no_panic (all of `update_attributions`).** Identical contents or not: `.panic` is
+    unreachable (same hypothesis as `no_panic`; not needed on the identical path). -/
+theorem no_panic_all (oldC newC : Text) (segs : List Seg) (subst : List (Nat × Nat)) (moves : List Move)
+    (old : List Attr) (author : Str) (ts : Nat) (hm : MovesIndexed segs moves) :
+    ∃ out, updateAttributions oldC newC segs subst moves old author ts = .ok out := by
+  by_cases h : oldC = newC
+  · subst h; exact ⟨_, updateAttributions_same ..⟩
+  · rw [updateAttributions_ne _ _ h]; exact no_panic segs subst moves old author ts hm
+
+/-- **C16 in_bounds (all of `update_attributions`).** With the segment contract `newC = newOf segs`
+    (checked on every real diff): every returned range satisfies `start ≤ end ≤ |newC|`, for ALL
+    priors — out of range, inverted, zero-length — on the identical path too. -/
+theorem in_bounds_all (oldC newC : Text) (segs : List Seg) (subst : List (Nat × Nat)) (moves : List Move)
+    (old : List Attr) (author : Str) (ts : Nat) (out : List Attr) (hnew : newC = newOf segs)
+    (h : updateAttributions oldC newC segs subst moves old author ts = .ok out) :
+    ∀ a ∈ out, a.start ≤ a.stop ∧ a.stop ≤ newC.length := by
+  by_cases he : oldC = newC
+  · subst he
+    rw [updateAttributions_same] at h
+    cases h
+    exact keepInPlace_bnd _ old
+  · rw [updateAttributions_ne _ _ he] at h
+    rw [hnew]
+    exact in_bounds segs subst moves old author ts out h
+
+/-- **C16 on_boundaries (all of `update_attributions`).** Same hypotheses as `on_boundaries` plus the
+    segment contract; on the identical path only the priors' own boundaries are needed. -/
+theorem on_boundaries_all (oldC newC : Text) (segs : List Seg) (subst : List (Nat × Nat)) (moves : List Move)
+    (old : List Attr) (author : Str) (ts : Nat) (out : List Attr) (hok : SegStartsOk segs)
+    (hoc : oldC = oldOf segs) (hnc : newC = newOf segs)
+    (hold : ∀ x ∈ old, OnB oldC x) (htg : TargetsOk segs moves)
+    (h : updateAttributions oldC newC segs subst moves old author ts = .ok out) :
+    ∀ a ∈ out, OnB newC a := by
+  by_cases he : oldC = newC
+  · subst he
+    rw [updateAttributions_same] at h
+    cases h
+    exact keepInPlace_boundaries _ old hold
+  · rw [updateAttributions_ne _ _ he] at h
+    rw [hnc]
+    exact on_boundaries segs subst moves old author ts out hok (by rw [← hoc]; exact hold) htg h
+
+/-- **C16 identity (exact form).** On an identical text and priors that lie in it (`start ≤ end ≤
+    |c|` — overlapping, unsorted, duplicated, ZERO-LENGTH, off boundaries, any authors and
+    timestamps, several authors per timestamp) `update_attributions` returns the priors in stable
+    `(start, end)` order: every prior is still there, unchanged, as often as before; whatever the diff
+    parameters are. -/
+theorem identity_update (c : Text) (segs : List Seg) (subst : List (Nat × Nat)) (moves : List Move)
+    (P : List Attr) (author : Str) (ts : Nat) (hP : InRange c.length P) :
+    updateAttributions c c segs subst moves P author ts = .ok (sortBy posLe P) ∧
+    (∀ q : Attr → Bool, (sortBy posLe P).countP q = P.countP q) := by
+  rw [updateAttributions_same, keepInPlace_inRange _ P hP]
+  exact ⟨rfl, fun q => countP_sortBy q posLe P⟩
+
+/-- **C16 identity_keeps_lines.** For every text `c` and ALL prior lists that lie in it
+    (`InRange`: `start ≤ end ≤ |c|`; zero-length deletion markers, several authors sharing a
+    timestamp, any order, duplicates, overlaps, off char boundaries — no normal-form hypothesis):
+    the line attributions after `update_attributions(c, c, P)` are those before it — authors AND
+    `overrode` fields, and a slice panic of the projection before is one after.
+    The three regions excluded from the former `identity_keeps_lines_partial` are regression
+    theorems below.  Priors that reach past the content are cut to it (`in_bounds_all`), for those
+    and all others every byte keeps its cover set (`identity_keeps_cover`); that the projection is
+    unchanged for them too is checked by the oracle `identity_keeps_lines` on the real code (every
+    non-inverted prior list), not proved. -/
+theorem identity_keeps_lines (c : Text) (segs : List Seg) (subst : List (Nat × Nat)) (moves : List Move)
+    (P : List Attr) (author : Str) (ts : Nat) (hP : InRange c.length P) :
+    ∀ out, updateAttributions c c segs subst moves P author ts = .ok out →
+      toLineAttrs out c = toLineAttrs P c := by
   intro out hout
-  rw [h] at hout
+  rw [(identity_update c segs subst moves P author ts hP).1] at hout
   cases hout
-  rfl
+  exact toLineAttrs_sortBy_posLe P c
 
-/-- non-vacuity of `Tame` and of the normal-form hypothesis (overlapping ranges of two authors) -/
-example : Tame 6 [⟨0, 4, ['a'], 1⟩, ⟨2, 6, human, 2⟩] := by
+/-- **C16 identity_keeps_cover.** For ALL prior lists (out of range, inverted, zero-length, …):
+    after an identity update every byte of the text is covered by exactly the (author, ts) pairs
+    that covered it before. -/
+theorem identity_keeps_cover (c : Text) (segs : List Seg) (subst : List (Nat × Nat)) (moves : List Move)
+    (P : List Attr) (author : Str) (ts : Nat) (out : List Attr)
+    (h : updateAttributions c c segs subst moves P author ts = .ok out) :
+    ∀ (w : Str × Nat) (p : Nat), p < c.length → (Covered out w p ↔ Covered P w p) := by
+  rw [updateAttributions_same] at h
+  cases h
+  exact fun w p hp => keepInPlace_covered _ P w p hp
+
+/-- non-vacuity of `InRange`: overlapping ranges of two authors, a deletion marker, a shared timestamp -/
+example : InRange 6 [⟨2, 6, human, 2⟩, ⟨0, 4, ['a'], 1⟩, ⟨3, 3, ['b'], 2⟩] := by
   intro a ha
   simp only [List.mem_cons, List.mem_nil_iff, or_false] at ha
-  rcases ha with rfl | rfl <;> exact ⟨by decide, by decide⟩
-example : merge (normalizeOld [⟨0, 4, ['a'], 1⟩, ⟨2, 6, human, 2⟩]) = [⟨0, 4, ['a'], 1⟩, ⟨2, 6, human, 2⟩] := by
-  decide
+  rcases ha with rfl | rfl | rfl <;> exact ⟨by decide, by decide⟩
 
-/-- excluded region 1 (known finding `identity:zero-length-prior`): a deletion marker inside
-    the text is dropped by an identity update and line 1 changes from human (overrode ai) to ai. -/
+/-- regression (was known finding `identity:zero-length-prior`, excluded region 1): the deletion
+    marker inside the text survives an identity update and line 1 stays human (overrode ai); the
+    diff path (`update`, no longer reached for identical contents) dropped it. -/
 theorem witness_identity_zero_length :
     toLineAttrs [⟨0, 3, ['a', 'i'], 1⟩, ⟨1, 1, human, 2⟩] [97, 98, 10]
       = .ok [⟨1, 1, human, some ['a', 'i']⟩] ∧
+    updateAttributions [97, 98, 10] [97, 98, 10] [⟨.equal, [97, 98, 10]⟩] [] []
+        [⟨0, 3, ['a', 'i'], 1⟩, ⟨1, 1, human, 2⟩] ['a', 'i'] 9
+      = .ok [⟨0, 3, ['a', 'i'], 1⟩, ⟨1, 1, human, 2⟩] ∧
     update [⟨.equal, [97, 98, 10]⟩] [] [] [⟨0, 3, ['a', 'i'], 1⟩, ⟨1, 1, human, 2⟩] ['a', 'i'] 9
-      = .ok [⟨0, 3, ['a', 'i'], 1⟩] ∧
-    toLineAttrs [⟨0, 3, ['a', 'i'], 1⟩] [97, 98, 10] = .ok [⟨1, 1, ['a', 'i'], none⟩] := by decide
+      = .ok [⟨0, 3, ['a', 'i'], 1⟩] := by decide
 
-/-- excluded region 2 (known finding `identity:timestamp-shared-by-authors`): two authors with
-    the same timestamp on the same range; the update sorts by author and the winner flips. -/
+/-- regression (was `identity:timestamp-shared-by-authors`, excluded region 2): two authors with
+    the same timestamp on the same range keep their order, the first-on-tie winner `b` stays; the
+    diff path sorted by author and the winner flipped to `a`. -/
 theorem witness_identity_ts_tie :
     toLineAttrs [⟨0, 3, ['b'], 1⟩, ⟨0, 3, ['a'], 1⟩] [97, 98, 10] = .ok [⟨1, 1, ['b'], none⟩] ∧
-    update [⟨.equal, [97, 98, 10]⟩] [] [] [⟨0, 3, ['b'], 1⟩, ⟨0, 3, ['a'], 1⟩] ['z'] 9
-      = .ok [⟨0, 3, ['a'], 1⟩, ⟨0, 3, ['b'], 1⟩] ∧
-    toLineAttrs [⟨0, 3, ['a'], 1⟩, ⟨0, 3, ['b'], 1⟩] [97, 98, 10] = .ok [⟨1, 1, ['a'], none⟩] := by decide
+    updateAttributions [97, 98, 10] [97, 98, 10] [⟨.equal, [97, 98, 10]⟩] [] []
+        [⟨0, 3, ['b'], 1⟩, ⟨0, 3, ['a'], 1⟩] ['z'] 9
+      = .ok [⟨0, 3, ['b'], 1⟩, ⟨0, 3, ['a'], 1⟩] ∧
+    (match update [⟨.equal, [97, 98, 10]⟩] [] [] [⟨0, 3, ['b'], 1⟩, ⟨0, 3, ['a'], 1⟩] ['z'] 9 with
+     | .ok o => toLineAttrs o [97, 98, 10]
+     | .error e => .error e) = .ok [⟨1, 1, ['a'], none⟩] := by decide
 
-/-- excluded region 3 (known finding `identity:overrode-depends-on-prior-order`): three priors
-    on the same range with distinct timestamps; the dominant author `b` is kept, but `overrode`
-    is read from the LAST AI / human candidate in list order, and the update re-sorts the
-    list by author: `overrode = a` becomes `none`. -/
+/-- regression (was `identity:overrode-depends-on-prior-order`, excluded region 3): three priors on
+    the same range keep their order, so `overrode = a` (read from the last AI / human candidate
+    in list order) stays; the diff path re-sorted by author and it became `none`. -/
 theorem witness_identity_overrode_order :
     toLineAttrs [⟨0, 3, ['b'], 6⟩, ⟨0, 3, ['a'], 0⟩, ⟨0, 3, human, 5⟩] [97, 98, 10]
       = .ok [⟨1, 1, ['b'], some ['a']⟩] ∧
-    update [⟨.equal, [97, 98, 10]⟩] [] [] [⟨0, 3, ['b'], 6⟩, ⟨0, 3, ['a'], 0⟩, ⟨0, 3, human, 5⟩] ['z'] 9
-      = .ok [⟨0, 3, ['a'], 0⟩, ⟨0, 3, ['b'], 6⟩, ⟨0, 3, human, 5⟩] ∧
-    toLineAttrs [⟨0, 3, ['a'], 0⟩, ⟨0, 3, ['b'], 6⟩, ⟨0, 3, human, 5⟩] [97, 98, 10]
-      = .ok [⟨1, 1, ['b'], none⟩] := by decide
+    updateAttributions [97, 98, 10] [97, 98, 10] [⟨.equal, [97, 98, 10]⟩] [] []
+        [⟨0, 3, ['b'], 6⟩, ⟨0, 3, ['a'], 0⟩, ⟨0, 3, human, 5⟩] ['z'] 9
+      = .ok [⟨0, 3, ['b'], 6⟩, ⟨0, 3, ['a'], 0⟩, ⟨0, 3, human, 5⟩] ∧
+    (match update [⟨.equal, [97, 98, 10]⟩] [] [] [⟨0, 3, ['b'], 6⟩, ⟨0, 3, ['a'], 0⟩, ⟨0, 3, human, 5⟩] ['z'] 9 with
+     | .ok o => toLineAttrs o [97, 98, 10]
+     | .error e => .error e) = .ok [⟨1, 1, ['b'], none⟩] := by decide
+
+/-- the position order matters: priors that reach past the content are cut to it, and two of them
+    with one start would trade places under the projection's `(start, end, index)` order if they
+    were cut where they stand; sorted first they keep the projection's order (`a` before `b`). -/
+theorem witness_identity_out_of_range_order :
+    toLineAttrs [⟨0, 12, ['b'], 1⟩, ⟨0, 10, ['a'], 1⟩] [97, 98, 10] = .ok [⟨1, 1, ['a'], none⟩] ∧
+    updateAttributions [97, 98, 10] [97, 98, 10] [⟨.equal, [97, 98, 10]⟩] [] []
+        [⟨0, 12, ['b'], 1⟩, ⟨0, 10, ['a'], 1⟩] ['z'] 9
+      = .ok [⟨0, 3, ['a'], 1⟩, ⟨0, 3, ['b'], 1⟩] ∧
+    toLineAttrs [⟨0, 3, ['a'], 1⟩, ⟨0, 3, ['b'], 1⟩] [97, 98, 10] = .ok [⟨1, 1, ['a'], none⟩] ∧
+    toLineAttrs [⟨0, 3, ['b'], 1⟩, ⟨0, 3, ['a'], 1⟩] [97, 98, 10] = .ok [⟨1, 1, ['b'], none⟩] := by decide
+
+/-- outside the property's quantifier: an INVERTED prior (`end < start`) is a candidate on a
+    whitespace-only line it straddles; an identity update drops it (every returned range has
+    `start ≤ end`, `in_bounds_all`), so that line's attribution goes. -/
+theorem witness_identity_inverted :
+    toLineAttrs [⟨3, 1, ['a'], 5⟩] [32, 32, 32, 32, 10] = .ok [⟨1, 1, ['a'], none⟩] ∧
+    updateAttributions [32, 32, 32, 32, 10] [32, 32, 32, 32, 10] [⟨.equal, [32, 32, 32, 32, 10]⟩] [] []
+        [⟨3, 1, ['a'], 5⟩] ['z'] 9 = .ok [] := by decide
 
 end GitAi.Tracker
 
@@ -365,7 +451,13 @@ end GitAi.Tracker
 #print axioms GitAi.Tracker.witness_roundtrip_human
 #print axioms GitAi.Tracker.witness_roundtrip_overlap
 #print axioms GitAi.Tracker.identity_update
-#print axioms GitAi.Tracker.identity_keeps_lines_partial
+#print axioms GitAi.Tracker.identity_keeps_lines
+#print axioms GitAi.Tracker.identity_keeps_cover
+#print axioms GitAi.Tracker.no_panic_all
+#print axioms GitAi.Tracker.in_bounds_all
+#print axioms GitAi.Tracker.on_boundaries_all
+#print axioms GitAi.Tracker.witness_identity_out_of_range_order
+#print axioms GitAi.Tracker.witness_identity_inverted
 #print axioms GitAi.Tracker.witness_identity_zero_length
 #print axioms GitAi.Tracker.witness_identity_ts_tie
 #print axioms GitAi.Tracker.no_panic
